@@ -277,6 +277,7 @@ type replayOut struct {
 func report(p *propSpec, tier string, seed int, results []UnitResult, t0 time.Time) int {
 	st := runStats{aborted: map[string]int{}, reached: map[string]int{}, intrinsics: map[string]int64{}, fnSteps: map[string]int64{}}
 	var undecided, broken, skippedUnits []string
+	skipKinds := map[string]int{}
 	type viol struct {
 		u Unit
 		v interp.Violation
@@ -307,7 +308,18 @@ func report(p *propSpec, tier string, seed int, results []UnitResult, t0 time.Ti
 		}
 		if r.Skipped != "" {
 			st.skipped++
-			skippedUnits = append(skippedUnits, r.Unit.ID+": "+firstLine(r.Skipped))
+			kind := skipKind(r.Skipped)
+			skippedUnits = append(skippedUnits, r.Unit.ID+": ["+kind+"] "+firstLine(r.Skipped))
+			skipKinds[kind]++
+			if !expectedSkip(p.ID, kind) {
+				// the unit's set-up (compiling an enumerated pattern) failed in a way the unchanged tree never
+				// does for this property: a valid pattern that no longer compiles, or a Go panic inside Compile
+				id := "setup-compile-error"
+				if kind == "go-panic" {
+					id = "setup-go-panic"
+				}
+				viols = append(viols, viol{r.Unit, interp.Violation{ID: id, Msg: firstLine(r.Skipped), Model: map[string]uint64{}, Detail: []string{kind}}})
+			}
 			continue
 		}
 		if len(r.Undecided) > 0 {
@@ -444,7 +456,7 @@ func report(p *propSpec, tier string, seed int, results []UnitResult, t0 time.Ti
 	var nativeCases []replayCase
 	interpReplayed := 0
 	for i, c := range cases {
-		if c.Params["interp_replay"] == "" {
+		if !interpReplayOnly(c) {
 			nativeCases = append(nativeCases, c)
 			continue
 		}
@@ -477,7 +489,7 @@ func report(p *propSpec, tier string, seed int, results []UnitResult, t0 time.Ti
 				byID[o.ID] = o
 			}
 			for i, c := range cases {
-				if c.Params["interp_replay"] != "" {
+				if interpReplayOnly(c) {
 					continue
 				}
 				o, ok := byID[c.ID]
@@ -492,8 +504,11 @@ func report(p *propSpec, tier string, seed int, results []UnitResult, t0 time.Ti
 							hit = true
 						}
 					}
-					if c.WantFail == "go-panic" || c.WantFail == "panic" {
+					if c.WantFail == "go-panic" || c.WantFail == "panic" || c.WantFail == "setup-go-panic" {
 						hit = o.Panic != ""
+					}
+					if c.WantFail == "setup-compile-error" {
+						hit = strings.Contains(o.Panic, "compile:")
 					}
 					if hit {
 						reproduced[c.ID] = true
@@ -584,6 +599,7 @@ func report(p *propSpec, tier string, seed int, results []UnitResult, t0 time.Ti
 			"exhaustive":                    len(undecided) == 0 && len(broken) == 0,
 			"units":                         st.units,
 			"units_skipped_setup":           st.skipped,
+			"units_skipped_by_reason":       skipKinds,
 			"units_undecided":               undecided,
 			"units_broken":                  broken,
 			"patterns":                      len(patterns),
@@ -717,4 +733,49 @@ func replayMain(args []string) int {
 		return 1
 	}
 	return 0
+}
+
+// skipKind classifies the reason a unit's set-up declined the unit: the parse error code of a pattern that
+// does not compile under the unit's options, or "go-panic" for anything else (a Go panic inside Compile).
+func skipKind(msg string) string {
+	msg = firstLine(msg)
+	if i := strings.Index(msg, "compile: "); i >= 0 {
+		k := msg[i+len("compile: "):]
+		k = strings.TrimPrefix(k, "error parsing regexp: ")
+		if j := strings.Index(k, " in `"); j >= 0 {
+			k = k[:j]
+		}
+		return k
+	}
+	return "go-panic"
+}
+
+var expectedSkips map[string][]string
+
+// expectedSkip: /verif/expected_skips.json lists, per property, the parse-error kinds with which enumerated
+// patterns are rejected on the unchanged tree (e.g. duplicate group names under ECMAScript). Any other reason
+// for a failed set-up is reported as a violation rather than silently shrinking the covered set.
+func expectedSkip(prop, kind string) bool {
+	if expectedSkips == nil {
+		expectedSkips = map[string][]string{}
+		if b, err := os.ReadFile(filepath.Join(verifDir, "expected_skips.json")); err == nil {
+			json.Unmarshal(b, &expectedSkips)
+		}
+	}
+	if kind == "go-panic" {
+		return false
+	}
+	for _, k := range expectedSkips[prop] {
+		if k == kind {
+			return true
+		}
+	}
+	return false
+}
+
+// interpReplayOnly: counterexamples that only exist in the interpreter's model of the environment (a
+// schedule of the coroutine scheduler, the virtual clock, the ownership log of the modelled sync.Pool) are
+// re-executed deterministically in the interpreter; everything else is replayed against the native build.
+func interpReplayOnly(c replayCase) bool {
+	return c.Params["interp_replay"] != "" || c.WantFail == "pool-double-put"
 }
